@@ -462,6 +462,84 @@ Definition m_stat (q : squery) (a b : list Z) : Z :=
   | QLength => Z.of_nat (m_strlen (a ++ [0%Z]))
   | QFindC c => m_sfind (a ++ [0%Z]) c 0
   | QFindLastC c => m_sfindlast (a ++ [0%Z]) c 0 (-1)%Z
+  | QFindStr => zidx (m_strstr a b)                      (* find(in, str) = strstr(in, str) *)
+  | QFindOneOfStr => zidx (m_strpbrk a b)                (* findOneOf(in, chars) = strpbrk(in, chars) *)
+  end.
+
+(* ---- operator+ ---- *)
+(* the destructor of a temporary that is not the youngest object: the variable at index i goes away *)
+Definition drop_at (w : world) (i : nat) : res world :=
+  do h <- get_var w i;
+  do w1 <- release w h;
+  Ok (mkworld (firstn i (vars w1) ++ skipn (S i) (vars w1)) (heap w1) (regs w1)).
+
+(* operator+(const String& other) const {return String( *this).append(other);}
+   the temporary String( *this) is pushed at the end, append returns a reference to it, the returned
+   String is copy-constructed from that reference (pushed behind the temporary), then the temporary dies:
+   the result ends up as the youngest variable *)
+Definition plus (w : world) (v u : nat) : res world :=
+  let t := length (vars w) in
+  do w1 <- push_copy w v;
+  do w2 <- append_s w1 t u;
+  do w3 <- push_copy w2 t;
+  drop_at w3 t.
+
+(* operator+(const char(&str)[N]) const {return String( *this).append(String(str));}
+   hl = the non-owning descriptor of the temporary String(str) *)
+Definition plus_tmp (w : world) (v : nat) (hl : handle) : res world :=
+  let t := length (vars w) in
+  do w1 <- push_copy w v;
+  let w2 := push_var w1 hl in
+  do w3 <- append_s w2 t (S t);
+  do w4 <- push_copy w3 t;
+  do w5 <- drop_at w4 (S t);
+  drop_at w5 t.
+
+(* ---- toBool ---- *)
+(* for(; *p == '0'; ++p); on a terminated text *)
+Fixpoint m_skip0 (l : list Z) : list Z :=
+  match l with x :: t => if (x =? 48)%Z then m_skip0 t else l | [] => [] end.
+(* the part of toBool() after the three early exits; a = the text, read through the C-string view a ++ [0] *)
+Definition m_tobool_tail (a : list Z) : bool :=
+  let p := m_skip0 (a ++ [0%Z]) in
+  match p with
+  | x :: q =>
+    if (x =? 46)%Z then
+      let p2 := m_skip0 q in
+      (* if(!*p && (p[-1] == '0' || *data->str == '0')) return false; *)
+      negb ((hd 0%Z p2 =? 0)%Z && ((length p2 <? length q) || (hd 0%Z (a ++ [0%Z]) =? 48)%Z))
+    else true
+  | [] => true
+  end.
+
+(* ---- the static char functions ---- *)
+(* isalnum ... isxdigit of libc on (uchar)c in the "C" locale (the harness never calls setlocale):
+   reference functions, trusted like strstr *)
+Definition rng (lo hi c : Z) : bool := ((lo <=? c) && (c <=? hi))%Z.
+Definition m_isdigit (c : Z) : bool := rng 48 57 c.
+Definition m_isupper (c : Z) : bool := rng 65 90 c.
+Definition m_islower (c : Z) : bool := rng 97 122 c.
+Definition m_isalpha (c : Z) : bool := m_isupper c || m_islower c.
+Definition m_isalnum (c : Z) : bool := m_isalpha c || m_isdigit c.
+Definition m_isxdigit (c : Z) : bool := m_isdigit c || rng 65 70 c || rng 97 102 c.
+Definition m_isprint (c : Z) : bool := rng 32 126 c.
+Definition m_ispunct (c : Z) : bool := m_isprint c && negb (m_isalnum c) && negb (c =? 32)%Z.
+(* isSpace(char c) {return (c >= 9 && c <= 13) || c == 32;} compares the SIGNED char *)
+Definition schar (c : Z) : Z := if (c <? 128)%Z then c else (c - 256)%Z.
+Definition m_isspace (c : Z) : bool := let s := schar c in ((9 <=? s) && (s <=? 13))%Z || (s =? 32)%Z.
+Definition m_char (q : cquery) (c : Z) : Z :=
+  match q with
+  | CLower => lowt c                                     (* lowerCaseMap[(uchar&)c] *)
+  | CUpper => uppt c
+  | CIsSpace => b2z (m_isspace c)
+  | CIsAlnum => b2z (m_isalnum c)
+  | CIsAlpha => b2z (m_isalpha c)
+  | CIsDigit => b2z (m_isdigit c)
+  | CIsLowerCase => b2z (m_islower c)
+  | CIsPrint => b2z (m_isprint c)
+  | CIsPunct => b2z (m_ispunct c)
+  | CIsUpperCase => b2z (m_isupper c)
+  | CIsHexDigit => b2z (m_isxdigit c)
   end.
 
 (* ---- String::printf, repaired ---- *)
@@ -669,6 +747,37 @@ Definition exec (w : world) (o : op) : res (world * out) :=
   | OStat q v u =>
     do a <- var_bytes w v; do b <- var_bytes w u;
     Ok (w, RInt (m_stat q a b))
+  | OPlusEqS v u => ret (append_s w v u) RNone            (* {return append(other);} *)
+  | OPlusEqC v c => ret (append_cells w v [Some c]) RNone (* {return append(c);} *)
+  | OPlus v u => ret (plus w v u) RNone
+  | OPlusLit v l =>
+    (* the literal is foreign memory; String(str) describes its first N - 1 bytes *)
+    ret (plus_tmp (mkworld (vars w) (heap w) (regs w ++ [l ++ [0%Z]])) v (HView (length (regs w)) 0 (length l))) RNone
+  | OPlusAssign d v u =>
+    (* the temporary v + u is the youngest variable while operator= runs, then it dies *)
+    do w1 <- plus w v u;
+    do w2 <- assign w1 d (length (vars w));
+    ret (pop_var w2) RNone
+  | OFromBool b =>
+    (* {return value ? String("true") : String("false");}: the literal constructor, built in place *)
+    Ok (mkworld (vars w ++ [HView (length (regs w)) 0 (length (bool_text b))]) (heap w) (regs w ++ [bool_text b ++ [0%Z]]), RNone)
+  | OFromCStr l =>
+    (* String(str, length(str)) *)
+    let n := m_strlen (l ++ [0%Z]) in
+    ret (push_owned w (map Some (firstn n l)) (or3 n)) RNone
+  | OFromCStrN l n => ret (push_owned w (map Some (firstn n l)) (or3 n)) RNone
+  | OToBool v =>
+    do a <- var_bytes w v;
+    (* data->len == 0 || equalsIgnoreCase("false") || *this == "0" *)
+    if (length a =? 0)
+       || ((length a =? length false_text) && (m_cmp (map lowt a) (map lowt false_text) =? 0)%Z)
+       || ((length a =? 1) && list_eqb a [48%Z])
+    then Ok (w, RInt 0%Z)
+    else
+      do w1 <- cstr w v;                                  (* const char* p = *this *)
+      do bs <- var_bytes w1 v;
+      Ok (w1, RInt (b2z (m_tobool_tail bs)))
+  | OChar q c => Ok (w, RInt (m_char q c))
   end.
 
 (* the value a variable denotes, and the reference state a world denotes *)
